@@ -271,15 +271,22 @@ class Ctx:
                 if mm:
                     self.axioms.add(mm.group(1))
         closed = len(re.findall(r"Closed under the global context", log))
-        self.extra["print_assumptions_closed"] = closed
+        has_props = any(t.startswith("props/") for t in targets)
+        if has_props or "print_assumptions_closed" not in self.extra:
+            self.extra["print_assumptions_closed"] = closed
         bad = [a for a in self.axioms if a not in STD_AXIOMS_OK and a.split(".")[-1] not in STD_AXIOMS_OK]
         if bad:
             self.build_ok = False
             return False, "NON-STANDARD AXIOMS: %s\n" % bad + log
         # count obligations = Qed-closed statements in the closure
-        self.obligations, names = count_obligations(targets)
-        self.discharged = self.obligations
-        self.extra["theorems"] = names
+        # (a later build of a model file alone, e.g. for a correspondence evaluation, must not replace the
+        # counts of the property closure)
+        n, names = count_obligations(targets)
+        if has_props or n > self.obligations:
+            self.obligations = n
+            self.discharged = n
+        if has_props or not self.extra.get("theorems"):
+            self.extra["theorems"] = names
         return True, log
 
     def coq_eval(self, name, body, timeout=600, requires=()):
